@@ -145,6 +145,7 @@ static int valid_utf8(const char *s)
 }
 
 static long n_sub, n_changed, cases_since_clear;
+static int trace_every;
 static struct plist extra;	/* size <= 2 ASTs */
 static int maxlen_curated, maxlen_small;
 
@@ -194,6 +195,12 @@ static void one_pattern(const char *code, long nl)
 						continue;
 					}
 					got = lbuf_cp(xb, 1, lbuf_len(xb) - 1);
+					if (trace_every && !strcmp(got, exp) && (n_sub % trace_every) == 17 && !strchr(pat, '"') && !strchr(rep, '"')) {
+						char inp[512], whole[256];
+						snprintf(inp, sizeof(inp), "%s\nw! out\nq!\n", cmd);
+						snprintf(whole, sizeof(whole), "a b\n%sb a\n", got);
+						nv_trace_ex(ic ? "" : "se noic", "f", buf, inp, "out", whole, NULL, NULL);
+					}
 					if (strcmp(got, exp)) {
 						ref_subst(&a, lines[k], rep, gflag, ic, 1, dev, &ch2);
 						if (nv_re_depthhit)
@@ -297,6 +304,7 @@ int main(int argc, char **argv)
 	nv_init(argc, argv);
 	maxlen_curated = atoi(nv_arg(argc, argv, "len", nv_thorough ? "5" : "4"));
 	maxlen_small = atoi(nv_arg(argc, argv, "slen", nv_thorough ? "4" : "3"));
+	trace_every = atoi(nv_arg(argc, argv, "trace", nv_thorough ? "49999" : "6007"));
 	gen(2);
 	gen_lines(maxlen_curated);
 	vfs_put("f", "x\n", -1);
